@@ -177,6 +177,9 @@ def run(ctx: Any, prog: Program) -> None:
     writers = {'Keyvalues._serialise': kv.func('Keyvalues._serialise'), 'Keyvalues.export': kv.func('Keyvalues.export')}
     for qual, fn in writers.items():
         params = {a.arg for a in fn.args.args + fn.args.kwonlyargs} & INDENT_PARAMS
+        # a private writer takes its content from self: every `str` parameter it has is a layout option, whatever it is called
+        if qual.split('.')[-1].startswith('_'):
+            params |= {a.arg for a in fn.args.args[1:] + fn.args.kwonlyargs if a.annotation is not None and ast.unparse(a.annotation) in ('str', 'builtins.str')}
         # locals derived from indentation params (child_indent = f"{cur_indent}{indent}")
         derived: Set[str] = set(params)
         changed = True
